@@ -31,6 +31,8 @@ fn base(name: &'static str) -> RCfg {
         cb_idle_ops: false,
         final_dispatches: 2,
         prune: true,
+        tag_all: None,
+        update_disabled: false,
     }
 }
 
@@ -39,7 +41,11 @@ pub fn cfg_for(driver: &str, tier: &str) -> Option<(RCfg, u32)> {
     Some(match driver {
         "postaction" => {
             let mut c = base("postaction");
-            c.initial_sets = vec![vec![PLAIN1, PLAIN1], vec![PLAIN1, PLAIN1, PLAIN1], vec![PLAIN1, LIFE1]];
+            c.initial_sets = vec![vec![PLAIN1, PLAIN1], vec![PLAIN1, PLAIN1, PLAIN1], vec![PLAIN1, LIFE1], vec![LIFE3, PLAIN1]];
+            // whatever goes wrong here went wrong while a post-action was being applied
+            c.tag_all = Some("C09");
+            // a callback may also operate on the other sources (after or before asking for itself)
+            c.cb_others = true;
             c.max_actors = if q { 4 } else { 5 };
             c.depth = if q { 4 } else { 7 };
             c.top_ops = false;
@@ -56,6 +62,7 @@ pub fn cfg_for(driver: &str, tier: &str) -> Option<(RCfg, u32)> {
             c.max_actors = if q { 3 } else { 4 };
             c.depth = if q { 4 } else { 6 };
             c.synth = true;
+            c.update_disabled = true;
             c.cb_ret = vec![Ret::Reregister, Ret::Disable, Ret::Remove];
             c.cb_defer = true;
             c.cb_others = true;
@@ -142,7 +149,7 @@ pub fn run(args: &Args) -> Option<Report> {
         max_depth: cfg.depth,
         shard: args.shard,
         shard_depth: 3,
-        wall_cap_s: args.opt_u("wall", if args.tier == "quick" { 35 } else { 600 }) as f64,
+        wall_cap_s: args.opt_u("wall", if args.tier == "quick" { 120 } else { 600 }) as f64,
         exec_cap: args.opt_u("execs", u64::MAX / 2),
         prune: cfg.prune,
         n_samples: 3,
